@@ -2,6 +2,7 @@
 geometry extracted from the laid-out box tree and compared with the Lean model run on the same
 abstract input.  All lengths are dyadic so that float arithmetic is exact."""
 import contextlib
+import math
 from fractions import Fraction as F
 
 from harness import c11_mocks, docs
@@ -74,7 +75,7 @@ def gen_float_doc(rng, adversarial=False):
             else:
                 w = F(rng.randint(1, int(width)))
             r = rng.random()
-            # 4%: an empty border box (the early return of avoid_collisions; finding zero-height-float-ignores-other-floats)
+            # 4%: an empty border box (placed like any other float since 1bc67ce)
             h = q(rng, 1, 40) if r < 0.88 else F(1, 4) if r < 0.96 else F(0)
             item = {'kind': 'float', 'side': rng.choice(SIDES), 'w': w, 'h': h, 'clear': clear(),
                     'mt': margin(), 'mr': margin(), 'mb': margin(), 'ml': margin()}
@@ -265,7 +266,7 @@ def float_doc_wire(doc):
             for n, fl in zip(it['words'], it['inline']):
                 size = [0, n[1], n[2]] if isinstance(n, list) else [n * doc['fs'], n * doc['fs'], doc['fs']]
                 lines.append(size + [[[0, 0, f['mt'], f['mb'], f['ml'], f['mr'], f['w'], f['h'], f['side'],
-                                       f['clear'], 'bfc'] for f in fl], isinstance(n, list)])
+                                       f['clear'], 'bfc'] for f in fl]])
             items.append(['para', it['clear'], doc['fs'], it['align'], lines, it['mt'], it['mb']])
         elif it['kind'] == 'bfc':
             items.append(['bfc', it['clear'], it['w'], it['h'], it['ml'], it['mr'], it['mt'], it['mb']])
@@ -467,8 +468,26 @@ def gen_abs_doc(rng):
                 anc['style'][k] = anc[k]
             for k in ('minw', 'maxw', 'minh', 'maxh'):
                 anc['style'][k] = 'auto'
+        # min-height / max-height on a positioned ancestor: the height of the containing block of its absolute
+        # children (known finding abs-cb-height-before-min-max: a relative block lays them out before the clamp)
+        anc['minh'], anc['maxh'] = F(0), math.inf
+        if pos != 'static' and rng.random() < 0.35:
+            if rng.random() < 0.5:
+                anc['minh'] = size_h + q(rng, -40, 60, 2)
+            else:
+                anc['maxh'] = max(F(60), size_h - q(rng, 0, 80, 2))
+            if pos == 'absolute':
+                anc['style']['minh'] = ['px', anc['minh']] if anc['minh'] else 'auto'
+                anc['style']['maxh'] = ['px', anc['maxh']] if anc['maxh'] != math.inf else 'auto'
         ancestors.append(anc)
         size_w, size_h = size_w - 60, size_h - 50
+    for level in range(1, depth):
+        parent, anc = ancestors[level - 1], ancestors[level]
+        if anc['pos'] == 'relative' and (parent['minh'] or parent['maxh'] != math.inf):
+            # percentages of top / bottom refer to the parent's height, read before its min/max clamp
+            for k in (2, 3):
+                if anc['off'][k] != 'auto' and anc['off'][k][0] == 'pct':
+                    anc['off'][k] = ['px', q(rng, 0, 20)]
     fixed = rng.random() < 0.2
     target, content = gen_abs_style(rng, fixed), gen_content(rng, fs)
     replaced = rng.random() < 0.25
@@ -545,6 +564,10 @@ def abs_doc_html(doc):
                 left, right, top, bottom = anc['off']
                 style += (f';left:{css_dim(left)};right:{css_dim(right)};top:{css_dim(top)};'
                           f'bottom:{css_dim(bottom)}')
+                if anc.get('minh'):
+                    style += f';min-height:{px(anc["minh"])}'
+                if anc.get('maxh', math.inf) != math.inf:
+                    style += f';max-height:{px(anc["maxh"])}'
             out.append(f'<div id="a{level}" style="{style}">')
         closing.append('</div>')
     for h in doc['before']:
@@ -660,14 +683,18 @@ def abs_doc_cases(doc):
             sx0, sy0 = fr(parent.content_box_x()), fr(parent.content_box_y())
             ltr = not ancestors[level - 1]['rtl']
         sy0 += sum(before, F(0))
+        heights = None if j is None else [ancestors[j]['pos'] == 'relative', ancestors[j]['h'],
+                                           ancestors[j].get('minh', F(0)), ancestors[j].get('maxh', math.inf)]
         if content.get('html', '') is None:
-            line = sx.line('absrepldoc', style_wire(style), cb_wire(cb_box, j is None), ltr, sx0, sy0)
+            line = sx.line('absrepldoc', style_wire(style), cb_wire(cb_box, j is None), ltr, sx0, sy0, heights)
         else:
             line = sx.line('absblock', style_wire(style), cb_wire(cb_box, j is None), ltr, sx0, sy0,
-                           content['minc'], content['maxc'], content['hwide'], content['hnarrow'])
+                           content['minc'], content['maxc'], content['hwide'], content['hnarrow'], heights)
         pattern = ''.join('a' if style[k] == 'auto' else 'v' for k in ('left', 'right', 'width', 'ml', 'mr'))
         pattern_v = ''.join('a' if style[k] == 'auto' else 'v' for k in ('top', 'bottom', 'height', 'mt', 'mb'))
-        tags = ['h-' + pattern, 'v-' + pattern_v, 'ltr' if ltr else 'rtl',
+        clamped = j is not None and (ancestors[j].get('minh') or ancestors[j].get('maxh', math.inf) != math.inf)
+        tags = (['cb-minmax-height-' + ancestors[j]['pos']] if clamped else []) + [
+                'h-' + pattern, 'v-' + pattern_v, 'ltr' if ltr else 'rtl',
                 'cb-page' if j is None else 'cb-' + ancestors[j]['pos'], 'fixed' if fixed else 'absolute',
                 'replaced' if content.get('html', '') is None else 'block']
         return (line, rect_of(box), tags, key)
@@ -1011,6 +1038,92 @@ def fixed_area_violation(doc, text, areas):
 
 
 # ---------------------------------------------------------------------------------------------
+# the content of a fixed box near the page bottom: its own page against the pages it is repeated on
+
+FRAG_PAGE_H, FRAG_MARGIN = 320, 16
+
+
+def gen_fixed_fragment_doc(rng):
+    """A fixed box (top / bottom / height in every useful auto pattern) holding 1..4 in-flow blocks, declared
+    after some in-flow content on the first of two pages."""
+    pattern = rng.choice(['top', 'bottom', 'top-bottom', 'top-h', 'bottom-h'])
+    return {'pattern': pattern, 'top': q(rng, 0, 280, 2), 'bottom': q(rng, 0, 160, 2), 'h': q(rng, 4, 60, 2),
+            'heights': [q(rng, 1, 40, 2) for _ in range(rng.randint(1, 4))],
+            'before': rng.choice([F(0), F(20), q(rng, 0, 120, 2)]),
+            'mt': rng.choice([F(0), F(0), q(rng, 0, 8, 2)]), 'pt': rng.choice([F(0), F(0), q(rng, 0, 6, 2)])}
+
+
+def fixed_fragment_html(doc):
+    pat = doc['pattern']
+    css = ''
+    if 'top' in pat:
+        css += f'top:{px(doc["top"])};'
+    if 'bottom' in pat:
+        css += f'bottom:{px(doc["bottom"])};'
+    if pat.endswith('-h'):
+        css += f'height:{px(doc["h"])};'
+    kids = ''.join(f'<div id="k{i}" style="height:{px(h)}"></div>' for i, h in enumerate(doc['heights']))
+    return (f'<style>@page{{size:240px {FRAG_PAGE_H}px;margin:{FRAG_MARGIN}px}}html,body{{margin:0}}</style>'
+            f'<div style="height:{px(doc["before"])}"></div>'
+            f'<div id="o" style="position:fixed;left:0;width:50px;margin-top:{px(doc["mt"])};'
+            f'padding-top:{px(doc["pt"])};{css}">{kids}</div>'
+            '<div style="height:20px"></div><div style="break-before:page;height:20px"></div>')
+
+
+def fixed_fragment_wire(doc, own):
+    pat = doc['pattern']
+    top = doc['top'] if 'top' in pat else 'auto'
+    bottom = doc['bottom'] if 'bottom' in pat else 'auto'
+    height = doc['h'] if pat.endswith('-h') else 'auto'
+    vbox = [top, bottom, height, doc['mt'], F(0), doc['pt'], F(0), F(0), F(0), F(FRAG_MARGIN) + doc['before']]
+    return sx.line('fixedkept', own, F(FRAG_PAGE_H - FRAG_MARGIN), vbox, F(FRAG_MARGIN),
+                   F(FRAG_PAGE_H - 2 * FRAG_MARGIN), doc['heights'])
+
+
+def observe_fixed_fragment(doc):
+    """-> (number of child blocks in the first box of #o on page 1, on page 2)"""
+    by_id = boxes_by_id(docs.render(fixed_fragment_html(doc)))
+    out = []
+    for page in (0, 1):
+        found = [b for b in by_id.get('o', []) if b._page == page and type(b).__name__ == 'BlockBox']
+        out.append(sum(1 for c in found[0].children if type(c).__name__ == 'BlockBox') if found else -1)
+    return out
+
+
+def sec_fixed_fragments(run):
+    rng = run.rng
+    sec = run.section(
+        'fixed-fragments', 'rendered two-page documents with a fixed box (top / bottom / height auto patterns, margin '
+        'and padding top) holding 1..4 in-flow blocks, declared after in-flow content of random height: the number of '
+        'blocks drawn inside the box on its own page (make_page: bottom_space 0 + translation, content cut at the page '
+        'bottom) and on the other page (layout_fixed_boxes: never cut) against the model (fixedKept); '
+        'non-trivial = the box is cut on its own page')
+    for _ in range(run.n(120, 1200)):
+        doc = gen_fixed_fragment_doc(rng)
+        out = guarded(lambda: observe_fixed_fragment(doc))
+        for page, own in ((0, True), (1, False)):
+            text = out if isinstance(out, str) else str(out[page])
+            cut = not isinstance(out, str) and out[0] != len(doc['heights'])
+            sec.add(fixed_fragment_wire(doc, own), text,
+                    meta={'kind': 'fixed-fragment', 'doc': doc, 'own': own, 'signature': None}, nontrivial=cut,
+                    tags=['own-page' if own else 'other-page', 'pattern-' + doc['pattern'], 'cut' if cut else 'whole'])
+
+
+def fixed_fragment_violation(doc):
+    """A fixed box repeated on another page holds all its content there; on its own page the content may be cut
+    at the page bottom (known finding fixed-box-fragmented-on-own-page), but is never duplicated."""
+    out = guarded(lambda: observe_fixed_fragment(doc))
+    if isinstance(out, str):
+        return f'rendering raised {out}'
+    total = len(doc['heights'])
+    if out[1] != total:
+        return f'fixed box repeated on page 2 holds {out[1]} of its {total} blocks'
+    if not 1 <= out[0] <= total:
+        return f'fixed box holds {out[0]} blocks on its own page, it has {total}'
+    return None
+
+
+# ---------------------------------------------------------------------------------------------
 # wide documents checked by the verified trace checker (Model/FloatCheck.lean)
 
 WORDS = ['a', 'bb', 'ccc', 'dddd', 'eeeee', 'ffffff']
@@ -1278,7 +1391,7 @@ def float_doc_violation(doc, impl):
         kind = it['kind']
         if kind == 'float':
             rect = tuple(F(v) for v in p[1:5])
-            degenerate = it['h'] == 0 or rect[3] <= 0 or rect[2] < 0
+            degenerate = rect[3] <= 0 or rect[2] < 0      # a margin box without area
             what = check_float(f'#{i}', rect, it['side'], it['clear'], degenerate,
                                F(-10 ** 9) if loose else flow_y + collapse(adj), not loose, floats)
             if what:
@@ -1321,11 +1434,6 @@ def float_doc_violation(doc, impl):
                             if overlap((x, y, w, lh), other):
                                 return f'line of paragraph #{i} {(x, y, w, lh)} overlaps float {j} {other}'
                 same_line = []
-                if line_floats and doc['rtl']:
-                    # known finding inline-float-laid-out-twice: an rtl line holding floats may be started again,
-                    # and the floats laid out by the abandoned pass stay in the context: from here on only the
-                    # claims that extra (invisible) floats cannot break are held
-                    ghosts = True
                 if line_floats:
                     beside = [f for f in floats if f[0][1] < y + lh and y < f[0][1] + f[0][3]]
                     room = (min([cx + width] + [f[0][0] for f in beside if f[1] == 'right']) -
@@ -1456,7 +1564,15 @@ def abs_doc_violation(line, impl):
             return f'specified margin-left {ml} became {uml}'
     # vertical
     over_v = None not in (top, bottom, height, mt, mb)
-    if not has_minmax and not clamped_h:
+    # known finding abs-cb-height-before-min-max: a relative containing block whose height is changed by
+    # min-height / max-height hands its absolute children the height from before the clamp
+    hs = args[-1] if isinstance(args[-1], list) and len(args[-1]) == 4 else None
+    early_cb = False
+    if hs and hs[0] == 'true':
+        content_h, min_h = F(hs[1]), F(hs[2])
+        max_h = math.inf if hs[3] == 'inf' else F(hs[3])
+        early_cb = max(min(content_h, max_h), min_h) != content_h
+    if not has_minmax and not clamped_h and not early_cb:
         if top is not None and y != cb_y + top:
             return f'top: margin box starts at {y}, containing block starts at {cb_y}, top is {top}'
         if bottom is not None and not (repl and over_v) and y + mh != cb_y + cb_h - bottom:
@@ -1478,6 +1594,8 @@ def judge(meta, impl, line=None):
         return wide_doc_violation(meta['doc'])
     if meta.get('kind') == 'regression':
         return regression_violation(meta['id'])
+    if meta.get('kind') == 'fixed-fragment':
+        return fixed_fragment_violation(meta['doc'])
     if meta.get('kind') == 'fixed-area-doc':
         out = guarded(lambda: observe_fixed_area_doc(meta['doc']))
         return fixed_area_violation(meta['doc'], *(out if not isinstance(out, str) else (out, [])))
@@ -1629,11 +1747,9 @@ def finding_fixed_fragmented():
 
 FINDING_REPLAYS = {
     'fixed-box-fragmented-on-own-page': finding_fixed_fragmented,
-    'inline-float-laid-out-twice': finding_inline_float_twice,
     'tall-line-aligned-in-strut-band': finding_tall_line,
     'abs-cb-height-before-min-max': finding_cb_height_before_min_max,
     'fixed-in-absolute-not-repeated': finding_fixed_in_absolute,
-    'zero-height-float-ignores-other-floats': finding_zero_height_float_overlap,
 }
 
 # Findings repaired in /repo (`fixed:` lines of known_findings.txt): their committed inputs stay as regression
@@ -1647,6 +1763,8 @@ REGRESSION_REPLAYS = {
     'inline-float-snapped-to-line-top': finding_inline_float_snapped,
     'abs-replaced-floor-div': regression_abs_replaced_floor_div,
     'zero-height-float-blocks-descent': regression_zero_height_blocks_descent,
+    'zero-height-float-ignores-other-floats': finding_zero_height_float_overlap,
+    'inline-float-laid-out-twice': finding_inline_float_twice,
 }
 
 
@@ -1748,6 +1866,12 @@ def search(run, failures):
         try_abs(gen_abs_doc(rng))
         try_fixed(gen_fixed_doc(rng))
         try_fixed_area(gen_fixed_area_doc(rng))
+        doc = gen_fixed_fragment_doc(rng)
+        run.search_stats['evaluations'] += 1
+        what = fixed_fragment_violation(doc)
+        if what:
+            found.append({'what': what, 'input': {'html': fixed_fragment_html(doc), 'kind': 'fixed-fragment',
+                                                   'doc': doc}, 'signature': 'fixed-fragment:' + what[:60]})
     return found
 
 
@@ -1760,6 +1884,8 @@ def replay_html(inp):
         return fixed_doc_violation(doc, out if isinstance(out, str) else out[0])
     if inp.get('kind') == 'wide-doc':
         return wide_doc_violation(doc)
+    if inp.get('kind') == 'fixed-fragment':
+        return fixed_fragment_violation(doc)
     if inp.get('kind') == 'fixed-area-doc':
         out = guarded(lambda: observe_fixed_area_doc(doc))
         return fixed_area_violation(doc, *(out if not isinstance(out, str) else (out, [])))
